@@ -362,6 +362,13 @@ var reBothDisambig = regexp.MustCompile(`^[NBRQ][a-h][1-8]x?[a-h][1-8]`)
 
 // crowdedPreludes are legal openings which promote early, so that three pieces of one kind
 // stand on the board (under-promotions included): SAN then needs file, rank or both.
+var crowdedWitness = []string{
+	"a2a3 h7h5 b2b3 h5h4 c2c3 h4h3 d2d3 h3g2 e2e3 g2h1n c1b2 b8c6 d1g4 g8h6 a1a2 h1f2 h2h3 c6b4 a2a1 b4d5 e1e2 d5f6 g1f3 f6g4",
+	"a2a3 h7h5 b2b3 h5h4 c2c3 h4h3 d2d3 h3g2 e2e3 g2h1n g1h3 g8f6 b1d2 b8a6 d2c4 h8h6 c4d2 h6h8 a1a2 a8b8 d2b1 f6d5 h3g1 a6b4 g1e2 d5f4 a2c2 h1f2 e2g1 f4d3",
+	"a2a4 b7b5 a4b5 d7d5 b5b6 h7h5 b6a7 h8h6 a7b8n a8a5 a1a4 h6h8 g1h3 a5a4 b8a6 a4d4 h1g1 d4g4 d2d3 g4g5 h3g5 h8h6 a6b8 h6e6 b8d7 g8f6 d7c5 e6d6 b1c3 f6e4 c5e4",
+	"a2a3 h7h5 b2b3 h5h4 c2c3 h4h3 d2d3 h3g2 e2e3 g2h1n a1a2 b8c6 a2c2 c6b4 c2a2 b4a2 b1d2 a8b8 d2e4 h8h5 e4c5 g8f6 g1f3 h1g3 f3e5 g3e2 e5g4 f6e4 c5a4 e2c3",
+}
+
 var crowdedPreludes = []string{
 	"a2a4 b7b5 a4b5 d7d5 b5b6 h7h5 b6a7 h8h6 a7b8n",
 	"h2h4 g7g5 h4g5 e7e5 g5g6 a7a5 g6h7 a8a6 h7g8r",
@@ -378,6 +385,36 @@ func genCrowdedSet(r *Rng, nGames int) (*bookSet, int, int) {
 	bs := &bookSet{}
 	both, bothCaptures := 0, 0
 	start := rc.MustFEN(rc.StartFEN)
+	// games (found once by a random search with refchess) that end in a capture whose SAN needs
+	// file and rank of the origin; one or two of them open every crowded collection
+	for _, w := range []string{crowdedWitness[r.Intn(len(crowdedWitness))], crowdedWitness[r.Intn(len(crowdedWitness))]} {
+		b := start
+		var ms []rc.Move
+		ok := true
+		for _, u := range strings.Fields(w) {
+			found := false
+			for _, l := range b.Legal() {
+				if l.UCI() == u {
+					ms = append(ms, l)
+					b = b.Apply(l)
+					found = true
+					break
+				}
+			}
+			if !found {
+				ok = false
+				break
+			}
+		}
+		if !ok || len(ms) == 0 {
+			continue
+		}
+		if g, ok := replayGame(start, ms); ok && reBothDisambig.MatchString(g.SANs[len(g.SANs)-1]) {
+			bs.Games = append(bs.Games, g)
+			both++
+			bothCaptures++
+		}
+	}
 	for tries := 0; len(bs.Games) < nGames && tries < nGames*20; tries++ {
 		b := start
 		var ms []rc.Move
